@@ -42,13 +42,13 @@ type Impl struct {
 	OwnPrefix string
 	ReplayErr string
 	Powers    []int64 // when set, `init` is not needed
-	C        *nodekit.Chain
-	own      int
-	nSched   int
-	lastH    int64
-	ownParts map[string][]*types.Part
-	curOwn   string
-	curHdr   types.PartSetHeader
+	C         *nodekit.Chain
+	own       int
+	nSched    int
+	lastH     int64
+	ownParts  map[string][]*types.Part
+	curOwn    string
+	curHdr    types.PartSetHeader
 }
 
 func Kvs(w []string) map[string]string {
@@ -143,6 +143,9 @@ func (im *Impl) tear(doIt bool) bool {
 	cut := lastOff + len(lines[last])/2
 	return ioutil.WriteFile(path, data[:cut], 0600) == nil
 }
+
+// Own: how many self-created blocks have been named.
+func (im *Impl) Own() int { return im.own }
 
 // ResetAfterRestart: the chain object was rebuilt (new ticker, new ConsensusState)
 func (im *Impl) ResetAfterRestart() {
@@ -303,6 +306,17 @@ func (im *Impl) Exec(line string) string {
 					return "not-torn"
 				}
 			}
+			// blocks the node created but had not yet taken from its internal queue die with the process;
+			// they were never seen here, but they count: block names follow the order of creation
+			for {
+				m, ok := im.C.CS.VerifNextInternal()
+				if !ok {
+					break
+				}
+				if pm, isP := m.(*pbft.ProposalMessage); isP && im.NameOfParts(pm.Proposal.BlockPartsHeader) == "?" {
+					im.own++
+				}
+			}
 			im.C.Restart()
 			if err := im.C.CS.VerifStartPreamble(); err != nil { // what OnStart does first
 				im.ReplayErr = err.Error()
@@ -399,4 +413,3 @@ func Unhex(s string) []byte {
 	}
 	return b
 }
-
